@@ -162,6 +162,9 @@ func (c *context) getActionMethods() map[string][]*actionMethod {
 		if goMethod.Name() == OnBoundsMethodName {
 			// The parser implements _bounds.
 			// The generated parser should call it.
+			if !c.checkOnBoundsSignature(goMethod) {
+				continue
+			}
 			c.EmitBounds = true
 			continue
 		}
@@ -200,6 +203,26 @@ func (c *context) getActionMethods() map[string][]*actionMethod {
 		return nil
 	}
 	return actionMethods
+}
+
+// checkOnBoundsSignature verifies that _onBounds can be called the way the
+// generated parser calls it: _onBounds(result any, begin, end Token).
+func (c *context) checkOnBoundsSignature(m *gotypes.Func) bool {
+	sig := m.Type().(*gotypes.Signature)
+	emptyInterface := gotypes.NewInterfaceType(nil, nil)
+	ok := sig.Params().Len() == 3 &&
+		sig.Results().Len() == 0 &&
+		!sig.Variadic() &&
+		gotypes.AssignableTo(emptyInterface, sig.Params().At(0).Type()) &&
+		gotypes.AssignableTo(c.TokenType, sig.Params().At(1).Type()) &&
+		gotypes.AssignableTo(c.TokenType, sig.Params().At(2).Type())
+	if !ok {
+		c.Errs.Errorf(
+			m.Pos(),
+			"%v must have the signature (result any, begin, end Token)",
+			m.Name())
+	}
+	return ok
 }
 
 func (c *context) getReduceTypeForGeneratedRule(
